@@ -28,7 +28,7 @@ def plan(prop, tier):
     q = tier == "quick"
     if prop == "C08":
         return dict(dump=[("C08", 2)], deep=[("C08", 3 if q else 4)], keep=0.5 if q else 1.0,
-                    random=[("C08", 400 if q else 40000, 12 if q else 25)], cases=False)
+                    random=[("C08", 400 if q else 40000, 12 if q else 25), ("C17", 150 if q else 10000, 14)], cases=False)
     if prop == "C17":
         return dict(dump=[("C17", 4 if q else 5)], deep=[("C17", 6 if q else 7)], keep=1.0,
                     random=[("C17", 400 if q else 30000, 14 if q else 30)], cases=False)
